@@ -260,8 +260,8 @@ impl Property for C07 {
     }
     fn budget(&self, tier: Tier) -> u64 {
         match tier {
-            Tier::Quick => 150_000,
-            Tier::Thorough => 5_000_000,
+            Tier::Quick => 1_000_000,
+            Tier::Thorough => 12_000_000,
         }
     }
     fn generate(&self, seed: u64, run: u64, _tier: Tier, _avoid: &BTreeSet<String>) -> MacCase {
